@@ -423,3 +423,28 @@ def coq_term_conv(case):
     f = {'D': 'd_el_case %s repaired' % hs, 'U': 'u_el_case %s repaired' % hs, 'DM': 'dm_el_case repaired', 'UM': 'um_el_case repaired',
          'DW': 'dw_el_case repaired', 'UW': 'uw_el_case repaired'}[cls]
     return '%s %s' % (f, es)
+
+
+# ---- C10: (history, vertex subset) ----
+def sub_cases(rng, cls, lk, all_subsets_upto=4, oor_p=0.04):
+    h = history(rng, cls, lk, maxops=14, reject_p=0.0, sizes=(0, 1, 2, 3, 3, 4, 4, 5))
+    head, body = h.split(':', 1)
+    n = int(head.split()[2])
+    if n > 0:       # histories often end nearly empty: add a few edges at the end so that the induced subgraphs are not all trivial
+        extra = ['A %d %d %d 0' % (rng.randrange(n), rng.randrange(n), rng.randint(0, 3)) for _ in range(rng.randint(0, 6))]
+        if extra: h = h + (' ; ' if body.strip() else ' ') + ' ; '.join(extra); head, body = h.split(':', 1)
+    for o in body.split(';'):
+        t = o.split()
+        if t and t[0] == 'RZ': n = max(n, int(t[1]))
+    out = []
+    if n <= all_subsets_upto: masks = range(1 << n)
+    else: masks = [0, (1 << n) - 1] + [rng.getrandbits(n) for _ in range(10)]
+    for m in masks:
+        vs = [v for v in range(n) if m >> v & 1]
+        rng.shuffle(vs)
+        if rng.random() < oor_p: vs.insert(rng.randint(0, len(vs)), rng.choice([n, n + 1, 4294967295]))
+        out.append('SUB %s| %s' % (h + ' ', ' '.join(map(str, vs))))
+    return out
+
+def coq_term_sub(case):
+    return None      # the oracle values (set order, returned map) come from the implementation run; cross-checked through the other properties' samples
